@@ -97,6 +97,10 @@ class CazacBasedChannelEstimator:
         # Reference signal sequence
         r = self.ue_ref_seq
 
+        # A numpy integer of a narrow type (np.int8(127), np.uint8(255), ...)
+        # would overflow in `num_taps_to_keep + 1`
+        num_taps_to_keep = int(num_taps_to_keep)
+
         if received_signal.ndim == 1:
             # First we multiply (element-wise) the received signal by the
             # conjugate of the reference signal sequence
